@@ -192,3 +192,71 @@ func HarnessFileRoundTrip(k int) {
 	_ = db2.Close()
 	vh.Reach("end")
 }
+
+// c17Chain: a store that is one real chain of k headers (all on the longest chain, fixed difficulty).
+func c17Chain(k int) []hstore.H {
+	pre := make([]hstore.H, k)
+	for i := range pre {
+		pre[i] = hstore.NondetH()
+		h := &pre[i]
+		h.State, h.Bits = hstore.L, c17Bits[0]
+		h.W = domains.CalculateWork(h.Bits).BigInt()
+		if i == 0 {
+			h.Prev, h.Height, h.CW = chainhash.Hash{}, 0, h.W
+		} else {
+			h.Prev, h.Height, h.CW = pre[i-1].Hash, pre[i-1].Height+1, new(big.Int).Add(pre[i-1].CW, h.W)
+		}
+		src := domains.BlockHeaderSource{Version: h.Version, PrevBlock: h.Prev, MerkleRoot: h.Merkle, Timestamp: h.Ts, Bits: h.Bits, Nonce: h.Nonce}
+		h.Hash = chainhash.Hash(service.DefaultBlockHasher().BlockHash(&src))
+	}
+	vh.Assume(hstore.Inv(pre, nil))
+	return pre
+}
+
+func c17Export(rows []hstore.H, file string) error {
+	cfg := &config.AppConfig{
+		Db:  &config.DbConfig{Engine: config.DBSQLite, SchemaPath: vhdb.MigrationsDir(), SQLite: config.SQLiteConfig{FilePath: vhdb.TempPath()}, PreparedDbFilePath: file},
+		P2P: &config.P2PConfig{ChainNetType: config.MainNet},
+	}
+	a := &sqLiteAdapter{}
+	vh.Assume(a.connect(cfg.Db) == nil && a.doMigrations(cfg.Db) == nil)
+	for _, h := range rows {
+		vhdb.InsertHeaderRow(a.db, h.Row())
+	}
+	_ = a.db.Close()
+	return ExportHeaders(cfg, vh.Logger())
+}
+
+// HarnessExportOverEarlierFile (C17): the export is a function of the store only, not of what the
+// output path held before. A longer chain (k+1..k+2 headers) is exported to a path, then an
+// arbitrary store of k rows is exported to the same path, then the file is imported into an empty
+// database: exactly the second store's longest chain.
+func HarnessExportOverEarlierFile(k int, extra int) {
+	earlier := c17Chain(k + extra)
+	pre := c17Store(k)
+	file := vhdb.TempRelPath(".csv.gz")
+	vh.Assert("C17/export-succeeds", c17Export(earlier, file) == nil)
+	vh.Assert("C17/export-succeeds", c17Export(pre, file) == nil)
+
+	saved := config.Checkpoints
+	defer func() { config.Checkpoints = saved }()
+	g := pre[0].Hash
+	config.Checkpoints = []chaincfg.Checkpoint{{Height: 0, Hash: &g}}
+	dst := &config.AppConfig{
+		Db:  &config.DbConfig{Engine: config.DBSQLite, SchemaPath: vhdb.MigrationsDir(), SQLite: config.SQLiteConfig{FilePath: vhdb.TempPath()}, PreparedDb: true, PreparedDbFilePath: file},
+		P2P: &config.P2PConfig{ChainNetType: config.MainNet},
+	}
+	db2, err := Init(dst, vh.Logger())
+	vh.Assert("C17/import-succeeds", err == nil && db2 != nil)
+	if err != nil || db2 == nil {
+		return
+	}
+	got, ok := hstore.Load(db2)
+	vh.Assert("C17/imported-rows-wellformed", ok)
+	if !ok {
+		return
+	}
+	compareImported(pre, got)
+	_ = db2.Close()
+	vh.Reach("end")
+}
